@@ -219,7 +219,8 @@ theorem header_group (F : FileM) (hwf : F.wf = true) (more : List Str) :
 
 /-! ### no rendered line contains a line break -/
 
-def NoNl (s : Str) : Prop := ∀ c ∈ s, c ≠ '\n'
+/-- no character of `s` ends a line of a text-mode file (`\n`, `\r`) -/
+def NoNl (s : Str) : Prop := ∀ c ∈ s, Midgard.TextLines.isLineEnd c = false
 
 theorem nonl_nil : NoNl [] := fun _ h => by simp at h
 
@@ -235,11 +236,9 @@ theorem nonl_blanks (n : Nat) : NoNl (blanks n) := by
   rw [this]; decide
 
 theorem nonl_okText {s : Str} (h : okText s = true) : NoNl s := by
-  intro c hc e
-  simp only [okText, List.all_eq_true, Bool.and_eq_true, decide_eq_true_eq] at h
-  have := (h c hc).1
-  rw [e] at this
-  revert this; decide
+  intro c hc
+  simp only [okText, Bool.and_eq_true, List.all_eq_true, Bool.not_eq_eq_eq_not, Bool.not_true] at h
+  exact h.1 c hc
 
 theorem nonl_pad (a : Align) (w : Nat) {v : Str} (h : NoNl v) : NoNl (pad a w v) := by
   cases a
@@ -260,7 +259,7 @@ theorem nonl_renderFrom (L : Layout) : ∀ (pos : Nat) (cells : List (Align × S
       exact nonl_append (nonl_append (nonl_blanks _) (nonl_pad a _ (h (a, v) (by simp))))
         (ih _ cs (fun cell hc => h cell (by simp [hc])))
 
-theorem labels_nonl : specs.all (fun sp => sp.label.toList.all (fun c => c != '\n')) = true := by decide +kernel
+theorem labels_nonl : specs.all (fun sp => sp.label.toList.all (fun c => !Midgard.TextLines.isLineEnd c)) = true := by decide +kernel
 
 theorem nonl_spec_label (k : String) : NoNl (spec k).label.toList := by
   unfold spec
@@ -303,7 +302,7 @@ theorem nonl_body (b : SecM) (h : b.wf = true) : ∀ l ∈ bodyLines b, NoNl l :
   · exact nonl_renderRow _ _ (by decide) (rowVals_ok _ hn).2.2
   · have := List.all_eq_true.mp hrows r hr'
     simp only [okRow, Bool.and_eq_true] at this
-    exact nonl_renderRow _ _ this.1.1.1.1 (rowVals_ok _ this.2).2.2
+    exact nonl_renderRow _ _ this.1.1.1.1.1 (rowVals_ok _ this.2).2.2
 
 theorem nonl_rms (code : Str) (b : SecM) (hc : okRec "SOR" [code] = true) (h : b.wf = true) : ∀ l ∈ rmsLines code b, NoNl l := by
   intro l hl
@@ -403,33 +402,30 @@ theorem nonl_file (F : FileM) (hwf : F.wf = true) : ∀ l ∈ Spec.AntexFile.fil
   · exact nonl_antenna a (hants a ha) l hl
   · exact nonl_inert i (htr i hi)
 
-/-! ### line splitting of the rendered text -/
+/-! ### line splitting of the rendered text (text-mode iteration: `Model/TextLines.lean`) -/
 
-theorem splitOnAux_line (sep : Char) (l : Str) (hl : ∀ c ∈ l, c ≠ sep) (rest cur : Str) :
-    splitOnAux sep (l ++ sep :: rest) cur = (cur.reverse ++ l) :: splitOnAux sep rest [] := by
+open Midgard.TextLines in
+theorem textLinesAux_line (l : Str) (hl : NoNl l) (rest cur : Str) :
+    textLinesAux (l ++ '\n' :: rest) cur false = (cur.reverse ++ l) :: textLinesAux rest [] false := by
   induction l generalizing cur with
-  | nil => simp [splitOnAux]
+  | nil => simp [textLinesAux]
   | cons c l ih =>
-    have hc : c ≠ sep := hl c (by simp)
-    simp only [List.cons_append, splitOnAux, hc, if_false]
+    have hc : isLineEnd c = false := hl c (by simp)
+    simp only [isLineEnd, Bool.or_eq_false_iff, decide_eq_false_iff_not] at hc
+    simp only [List.cons_append, textLinesAux, hc.1, hc.2, if_false]
     rw [ih (fun x hx => hl x (by simp [hx]))]
     simp
 
-theorem splitOn_joinLines (ls : List Str) (h : ∀ l ∈ ls, NoNl l) :
-    splitOn '\n' (joinLines ls) = ls ++ [[]] := by
-  unfold splitOn
+/-- **line splitting**: a text made of lines free of `\n` and `\r`, each closed by a newline, is iterated as exactly
+those lines — whatever else they contain (form feed, vertical tab, FS/GS/RS, NEL, U+2028/9 do not end a line) -/
+theorem fileLines_joinLines (ls : List Str) (h : ∀ l ∈ ls, NoNl l) : Midgard.TextLines.textLines (joinLines ls) = ls := by
+  unfold Midgard.TextLines.textLines
   induction ls with
   | nil => rfl
   | cons l ls ih =>
     simp only [joinLines]
-    rw [splitOnAux_line '\n' l (h l (by simp))]
-    rw [ih (fun x hx => h x (by simp [hx]))]
+    rw [textLinesAux_line l (h l (by simp)), ih (fun x hx => h x (by simp [hx]))]
     simp
-
-theorem fileLines_joinLines (ls : List Str) (h : ∀ l ∈ ls, NoNl l) : ChainParser.fileLines (joinLines ls) = ls := by
-  unfold ChainParser.fileLines
-  rw [splitOn_joinLines ls h]
-  simp
 
 /-- **file_roundtrip** (see `Props/C15.lean`) -/
 theorem file_roundtrip (F : FileM) (hwf : F.wf = true) : parseText (Spec.AntexFile.render F) = calibrations F := by
